@@ -64,6 +64,27 @@ def check(world, ob, timeout_ms=5000, depth=2, use_cvc5=True, cvc5_timeout_s=10,
             model = s.model()
             model_lines = model_to_text(model)
             break
+    depth_used = depth
+    if res == 'unknown' and not quick_only and depth > 1:
+        # fewer definitional axioms: a smaller query.  unsat there is still a proof (axioms are only dropped);
+        # sat there is a counter-model of the assumptions posed at that depth (recorded as such).
+        for d in (1, 0):
+            ax2 = world.close(base, depth=d) if d else []
+            s2 = z3.Solver()
+            s2.set('timeout', min(timeout_ms, 4000))
+            for a in base:
+                s2.add(a)
+            for a in ax2:
+                s2.add(a)
+            r2 = s2.check()
+            if r2 == z3.unsat:
+                res, backend, depth_used = 'proved', f'z3-{z3.get_version_string()}', d
+                break
+            if r2 == z3.sat:
+                res, backend, depth_used = 'refuted', f'z3-{z3.get_version_string()}', d
+                model = s2.model()
+                model_lines = [f'(counter-model found with spec functions unfolded to depth {d})'] + model_to_text(model)
+                break
     if res == 'unknown' and use_cvc5 and os.path.exists(CVC5):
         try:
             smt2 = s.to_smt2()
